@@ -13,7 +13,7 @@ def kindOfChar : Char → Option Kind
   | 'M' => some .chmsg | 'O' => some .chother | 'p' => some .plain
   | 'a' => some .aff | 'A' => some .chaff | _ => none
 
-/-- `m1:0:11:1` = kind, id, channel, pos, count. -/
+/-- `m1:0:11:1` = kind, id, channel, pos, count; `m1:0:11:1:3`: … and the user it refers to. -/
 def parseEntry (s : String) : Option Entry :=
   match s.toList with
   | [] => none
@@ -21,6 +21,9 @@ def parseEntry (s : String) : Option Entry :=
     match (String.ofList rest).splitOn ":" with
     | [id, ch, pos, cnt] => do
       pure { id := (← id.toNat?), kind := (← kindOfChar k), chan := (← ch.toNat?), pos := (← pos.toInt?), count := (← cnt.toInt?) }
+    | [id, ch, pos, cnt, user] => do
+      pure { id := (← id.toNat?), kind := (← kindOfChar k), chan := (← ch.toNat?), pos := (← pos.toInt?), count := (← cnt.toInt?),
+             user := (← user.toNat?) }
     | _ => none
 
 def parseList {α} (f : String → Option α) (sep : String) (s : String) : Option (List α) :=
@@ -77,6 +80,7 @@ def parseAction (s : String) : Option Action :=
   | ["K", c] => do pure (.known (← c.toNat?))
   | ["ps", a, b, ids] => do pure (.pushSeq (← a.toNat?) (← b.toNat?) (← (ids.splitOn ",").mapM String.toNat?))
   | ["es", n] => do pure (.emitSeq (← n.toNat?))
+  | ["U", ids] => do pure (.knowUsers (← (ids.splitOn ",").mapM String.toNat?))
   | ["X", k, ids] => do pure (.extra (← k.toNat?) (← (ids.splitOn ",").mapM String.toNat?))
   | _ => none
 
